@@ -66,6 +66,17 @@ Definition chan_spec (h b1 b2 : Z) : chan_diag :=
   mkChan (h mod 64) (b1 mod 64) (Z.testbit b1 6) (Z.testbit b1 7)
          (chan_dtype_from_bits (b2 / 32)) (chan_error_from_code (b2 mod 32)).
 
+(* Channel-related diagnosis, third byte: bits 7..5 = channel data type (the enum discriminant is the
+   code, 000 and 111 have no type), bits 4..0 = error (1..9 named, 16..31 vendor specific, the rest
+   reserved; the number is kept). *)
+Definition dtype_as_specified (t : Z) (d : chan_dtype) : Prop :=
+  if (1 <=? t) && (t <=? 6) then chan_dtype_disc d = t else d = DtInvalid.
+
+Definition error_as_specified (e : Z) (x : chan_error) : Prop :=
+  chan_error_to_byte2 x = e /\
+  (if (1 <=? e) && (e <=? 9) then chan_error_disc x = Some e
+   else if 16 <=? e then x = CeVendor e else x = CeReserved e).
+
 (* decoding of exactly the bytes of one block *)
 Definition decode_block (w : bytes) : option block :=
   match w with
@@ -97,18 +108,23 @@ Fixpoint tiles (raw : bytes) (off : nat) (bs : list lblock) : Prop :=
   end.
 
 (* boolean equality of blocks *)
-Definition chan_error_key (e : chan_error) : Z :=
-  match e with
-  | CeReserved v => 1000 + v
-  | CeVendor v => 2000 + v
-  | _ => match chan_error_disc e with Some d => d | None => 0 end
+Definition chan_error_eqb (a b : chan_error) : bool :=
+  match a, b with
+  | CeReserved x, CeReserved y => x =? y
+  | CeVendor x, CeVendor y => x =? y
+  | _, _ =>
+      match chan_error_disc a, chan_error_disc b with
+      | Some x, Some y => x =? y
+      | _, _ => false
+      end
   end.
+
+Definition chan_dtype_eqb (a b : chan_dtype) : bool := chan_dtype_disc a =? chan_dtype_disc b.
 
 Definition chan_eqb (a b : chan_diag) : bool :=
   (c_module a =? c_module b) && (c_channel a =? c_channel b) &&
   Bool.eqb (c_input a) (c_input b) && Bool.eqb (c_output a) (c_output b) &&
-  (chan_dtype_disc (c_dtype a) =? chan_dtype_disc (c_dtype b)) &&
-  (chan_error_key (c_error a) =? chan_error_key (c_error b)).
+  chan_dtype_eqb (c_dtype a) (c_dtype b) && chan_error_eqb (c_error a) (c_error b).
 
 Definition block_eqb (a b : block) : bool :=
   match a, b with
@@ -184,4 +200,23 @@ Definition c17_scan_ok (pdu : bytes) (r : option (Z * option Z)) : bool :=
       Nat.leb 6 (length pdu) &&
       (ident =? 256 * nth 4 pdu 0 + nth 5 pdu 0) &&
       opt_eqb master (if nth 3 pdu 0 =? 255 then None else Some (nth 3 pdu 0))
+  end.
+
+(* ------------------------------------------------------------------ vocabulary of the theorems *)
+
+(* invariant of the container: the valid length is inside the buffer; its bytes are bytes *)
+Definition ext_wf (e : ext_diag) : Prop := (e_len e <= length (e_buf e))%nat.
+Definition ext_ok (e : ext_diag) : Prop := ext_wf e /\ all_bytes (e_buf e).
+
+Definition reply_bytes (r : reply) : Prop :=
+  match r with RData _ _ pdu => all_bytes pdu | RShortConf => True end.
+
+(* a yielded block in terms of the buffer bytes at its offset *)
+Definition block_explicit (raw : bytes) (b : lblock) : Prop :=
+  let h := nth (l_off b) raw 0 in
+  match l_blk b with
+  | BDevice d => h / 64 = 0 /\ l_len b = Z.to_nat (h mod 64) /\ d = firstn (l_len b - 1) (skipn (S (l_off b)) raw)
+  | BIdent d => h / 64 = 1 /\ l_len b = Z.to_nat (h mod 64) /\ d = firstn (l_len b - 1) (skipn (S (l_off b)) raw)
+  | BChannel c => h / 64 = 2 /\ l_len b = 3%nat /\
+                  c = chan_spec h (nth (l_off b + 1) raw 0) (nth (l_off b + 2) raw 0)
   end.
